@@ -28,6 +28,8 @@ type half struct {
 	delivered  int
 	written    int
 	dead       bool // writes in this direction fail (peer gone)
+	stalled    bool // the peer does not drain its socket and the buffer is full: writes block
+	failAt     int  // >= 0: the write that crosses this many bytes written is partial and fails (peer died mid-write)
 	readerGone bool // the reading end was closed locally
 }
 
@@ -48,14 +50,14 @@ type Conn struct {
 
 // NetStats counts fired network events of a run.
 type NetStats struct {
-	Delivered, Chunked, EOFs, Resets, Cuts, Kills, BytesDelivered int
+	Delivered, Chunked, EOFs, Resets, Cuts, Kills, BytesDelivered, Stalls, PartialWrites int
 }
 
 // Pipe creates a connected pair. a writes "name:a>b".
 func (s *Sched) Pipe(name string) (*Conn, *Conn) {
 	mu := &stdsync.Mutex{}
-	ab := &half{name: name + ":a>b", wake: make(chan struct{}, 1), cutAt: -1}
-	ba := &half{name: name + ":b>a", wake: make(chan struct{}, 1), cutAt: -1}
+	ab := &half{name: name + ":a>b", wake: make(chan struct{}, 1), cutAt: -1, failAt: -1}
+	ba := &half{name: name + ":b>a", wake: make(chan struct{}, 1), cutAt: -1, failAt: -1}
 	a := &Conn{s: s, mu: mu, rd: ba, wr: ab, name: name, end: "a"}
 	b := &Conn{s: s, mu: mu, rd: ab, wr: ba, name: name, end: "b"}
 	a.peer, b.peer = b, a
@@ -153,12 +155,40 @@ func (c *Conn) Write(p []byte) (int, error) {
 		Cur.ParkOwned("write:"+c.wr.name, "", nil)
 	}
 	c.mu.Lock()
+	if c.wr.stalled && !c.closed && Cur != nil && !Cur.IsSchedGoroutine() {
+		// a full socket buffer: the write blocks until the peer drains or this end is closed
+		c.mu.Unlock()
+		c.s.Net.Stalls++
+		Cur.ParkOwned("stalled-write:"+c.wr.name, "", func() bool {
+			c.mu.Lock()
+			defer c.mu.Unlock()
+			return !c.wr.stalled || c.closed
+		})
+		c.mu.Lock()
+	}
 	defer c.mu.Unlock()
 	if c.closed {
 		return 0, &net.OpError{Op: "write", Net: "unix", Err: net.ErrClosed}
 	}
 	if c.wr.dead || c.wr.readerGone {
 		return 0, epipe()
+	}
+	if c.wr.failAt >= 0 && c.wr.written+len(p) > c.wr.failAt {
+		// the peer dies while this write is in progress: a partial write and an error
+		k := c.wr.failAt - c.wr.written
+		if k < 0 {
+			k = 0
+		}
+		if k > 0 {
+			c.wr.inflight = append(c.wr.inflight, p[:k]...)
+			c.wr.segs = append(c.wr.segs, k)
+			c.wr.written += k
+		}
+		c.wr.dead = true
+		c.wr.eofSent = true
+		c.s.Net.PartialWrites++
+		c.schedule(c.wr)
+		return k, epipe()
 	}
 	if len(p) > 0 {
 		c.wr.inflight = append(c.wr.inflight, p...)
@@ -229,6 +259,14 @@ func (c *Conn) CutWrite(n int, reset bool) {
 	}
 	c.mu.Unlock()
 }
+
+// StallWrites makes writes by this end block (peer not draining, buffer full) until
+// released or until this end is closed.
+func (c *Conn) StallWrites(on bool) { c.mu.Lock(); c.wr.stalled = on; c.mu.Unlock() }
+
+// FailWriteAt plans a partial, failing write: the write by this end that crosses n bytes
+// written in total writes only up to n and returns EPIPE; the direction is dead afterwards.
+func (c *Conn) FailWriteAt(n int) { c.mu.Lock(); c.wr.failAt = n; c.mu.Unlock() }
 
 // Kill is peer death as seen by this end's peer... it closes both directions at once
 // from "outside": undelivered bytes in both directions are dropped, both ends read
